@@ -654,6 +654,8 @@ fn main() {
                         if !c.is_empty() { let (a, b) = *rng.pick(&c); ps = a; ph = b; }
                     }
                     let mut firsth = 0;
+                    // the two blocks of an equivocating leader are members of one hash group: they differ in a single byte (`advhash`)
+                    if copies == 2 && (w.next_hash - 1) % advhash::GROUP as usize == advhash::GROUP as usize - 1 { w.next_hash += 1; }
                     for c in 0..copies {
                         let h = w.new_block(s, ps, ph);
                         if c == 0 { firsth = h; }
